@@ -1233,7 +1233,7 @@ static void do_sprint(const Op* o) {
   progress(g_opidx, "C16", "s_print");
   size_t L = strlen(c->s);
   int pos = (int)(((o->a[1] % (int64_t)(L + 1)) + (int64_t)(L + 1)) % (int64_t)(L + 1));
-  int f = (int)(((o->a[2] % 11) + 11) % 11);
+  int f = (int)(((o->a[2] % 12) + 12) % 12);
   int64_t x = o->a[3];
   char out[512]; int r = 0;
   switch (f) {
@@ -1256,6 +1256,21 @@ static void do_sprint(const Op* o) {
     case 9: snprintf(out, sizeof out, "%f;", fltval(normv(ET_FLT, x))); r = print_to(c->obj, pos, "%$;", $F(fltval(normv(ET_FLT, x)))); break;
     case 10: { const char* sv = strval(x); if (strpbrk(sv, "\\\"'?")) sv = "plain";
       snprintf(out, sizeof out, "=\"%s\"", sv); r = print_to(c->obj, pos, "=%$", $S((char*)sv)); stat_add("str.print_show_string", 1); break; }
+    case 11: { /* %$ of container / reference / function objects: whatever their Show prints at position 0 of a fresh String is
+                * what must appear, between the surrounding literals, at any position of this one */
+      var ob; int k = (int)(((x % 7) + 7) % 7);
+      var arr = new_raw(Array, Int, $I(1), $I(x)); var tbl = new_raw(Table, Int, Int, $I(2), $I(x)); var tre = new_raw(Tree, String, Int, $S("k"), $I(x));
+      var lst = new_raw(List, Float, $F(0.5));
+      var tup = tuple($I(x), $S("t")); var rf = $(Ref, arr); var rg = range($I(3));    /* stack objects of this block */
+      switch (k) { case 0: ob = arr; break; case 1: ob = tbl; break; case 2: ob = tre; break; case 3: ob = lst; break;
+                   case 4: ob = tup; break; case 5: ob = rf; break; default: ob = rg; break; }
+      var tmp = new_raw(String, $S(""));
+      int r0 = print_to(tmp, 0, "%$", ob);
+      if (r0 != (int)strlen(c_str(tmp))) VIOL(c, "print-position", "print_to of a %s at position 0 returned %d, wrote %zu characters", c_str(type_of(ob)), r0, strlen(c_str(tmp)));
+      snprintf(out, sizeof out, "<%.400s>", c_str(tmp));
+      r = print_to(c->obj, pos, "<%$>", ob);
+      del_raw(tmp); del_raw(arr); del_raw(tbl); del_raw(tre); del_raw(lst);
+      stat_add("str.print_show_object", 1); break; }
     default: { /* a wide numeric field */
       static const int W[] = { 20, 31, 32, 33, 63, 64, 65, 100 };
       int w = W[((x % 8) + 8) % 8]; char fmt[16]; snprintf(fmt, sizeof fmt, "%%%dli", w);
@@ -1752,7 +1767,7 @@ static void containers_generate(Plan* p, Rng* r) {
       else if (d < 64) plan_add(p, O_SREM, 0, fault, ca, rng_chance(r, 3, 4) ? 1 + rng_below(r, 5) : 0, x, 0, 0, 0);
       else if (d < 72) plan_add(p, O_SMEM, 0, fault, ca, m, x, 0, 0, 0);
       else if (d < 86) plan_add(p, O_RESIZE, 0, fault, ca, x, 0, 0, 0, 0);
-      else plan_add(p, O_SPRINT, 0, fault, ca, x, rng_below(r, 11), (int64_t)rng_below(r, 2000) - 1000, 0, 0);
+      else plan_add(p, O_SPRINT, 0, fault, ca, x, rng_below(r, focus == 18 ? 11 : 12), (int64_t)rng_below(r, 2000) - 1000, 0, 0);
       continue;
     }
     if (g->kind == K_TABLE || g->kind == K_TREE) {
